@@ -174,6 +174,8 @@ class FalsyNM(Hooks, NodeMixin):
 
 
 class FalsyLM(Hooks, LightNodeMixin):
+    """Always falsy, also as a parent that has children."""
+
     __slots__ = ("name", "key")
 
     def __init__(self, name, key=0):
@@ -182,6 +184,9 @@ class FalsyLM(Hooks, LightNodeMixin):
 
     def __len__(self):
         return len(self.children)
+
+    def __bool__(self):
+        return False
 
     def __repr__(self):
         return "FalsyLM(%s)" % (self.name,)
@@ -262,7 +267,7 @@ def make_nodes(family, k):
             elif r == 2:
                 out.append(HAny(id="n%d" % i, name="n%d" % i))
             elif r == 3:
-                out.append(HSymMixin(out[0]))  # link to a universe member
+                out.append(HSymMixin(out[1]))  # link to a universe member that is itself a link
             else:
                 out.append(NM("n%d" % i))
         return out
